@@ -245,4 +245,35 @@ def rule_r6(ctx):
     return lambda_skeleton_rule(ctx)
 
 
-RULES = [("C11-R1", rule_r1), ("C11-R2", rule_r2), ("C11-R3", rule_r3), ("C11-R4", rule_r4), ("C11-R5", rule_r5), ("C11-R6", rule_r6)]
+def rule_r7(ctx):
+    """Decorators receive the function object itself.  Anything the converter adds around the function
+    (the implicit classmethod of __init_subclass__/__class_getitem__) goes OUTSIDE the user's
+    decorators: Python applies the decorators to the plain function and wraps the result."""
+    from ..semwalk import iter_tnodes
+
+    rr = RuleResult("C11-R7", "the innermost operand of the decorator chain is the function object (lambda) itself")
+    rr.floor = 1
+    entry = ctx.tmpl.pending_by_kind("FunctionDef")
+    for pr in entry.ok_paths():
+        nests = [t for t in iter_tnodes(pr.result) if t.kind == "$Nest" and "decorator_list" in str(getattr(t.fields.get("over"), "value", ""))]
+        what = f"FunctionDef|decorator-operand|{short_ctx(pr, 60)}"
+        rr.instances += 1
+        if len(nests) != 1:
+            # C07-R2 / C11-R3 report a missing or duplicated decorator chain
+            continue
+        init = nests[0].fields.get("init")
+        inner = init
+        # a cell-providing wrapper `(lambda __class__: <function>)(...)` is still the function object
+        ok = isinstance(inner, TNode) and (inner.kind == "Lambda" or (inner.kind == "Call" and isinstance(inner.fields.get("func"), TNode) and inner.fields["func"].kind == "Lambda"))
+        if ok:
+            rr.ok(what, sample={"rule": "C11-R7", "operand": inner.kind})
+        else:
+            desc = inner.kind if isinstance(inner, TNode) else type(inner).__name__
+            fn = inner.fields.get("func") if isinstance(inner, TNode) and inner.kind == "Call" else None
+            if isinstance(fn, TNode) and fn.kind == "Name" and isinstance(fn.fields.get("id"), Cst):
+                desc = f"{fn.fields['id'].value}(...)"
+            rr.fail("C11-R7|FunctionDef|decorator-operand", f"PendingFunctionDef.get_result: the user's decorators are applied to `{desc}` instead of the function: a decorator that wraps its argument receives (and calls) a non-function [context: {short_ctx(pr, 90)}]", what=what)
+    return rr
+
+
+RULES = [("C11-R1", rule_r1), ("C11-R2", rule_r2), ("C11-R3", rule_r3), ("C11-R4", rule_r4), ("C11-R5", rule_r5), ("C11-R6", rule_r6), ("C11-R7", rule_r7)]
